@@ -56,6 +56,19 @@ Proof.
   destruct (bank_send s caller to d x); reflexivity.
 Qed.
 
+(** when every error is propagated, running the flagged list is running the plain list *)
+Lemma run_steps_e_checked t d caller to x p : forallb snd p = true ->
+  forall sg, run_steps_e t d caller to x sg p = run_steps t d caller to x sg (map fst p).
+Proof.
+  induction p as [|[l c] r IH]; intros H sg; [reflexivity|].
+  simpl in H. apply andb_true_iff in H as [Hc Hr]. simpl in Hc. subst c. simpl. unfold bind.
+  destruct (run_step t d caller to x sg l) as [sg'|]; [apply IH; exact Hr | reflexivity].
+Qed.
+
+Lemma run_path_e_checked p s t d caller x to : forallb snd p = true ->
+  run_path_e p s t d caller x to = run_path (map fst p) s t d caller x to.
+Proof. intro H. unfold run_path_e, run_path. rewrite run_steps_e_checked by exact H. reflexivity. Qed.
+
 (** the model's operations, re-expressed over an arbitrary table of step lists *)
 Definition exec_conv_with (P : paths) (s : st) (o : op) : option st :=
   match o with
